@@ -43,7 +43,9 @@ def dictify_all_complex_values(data: dict) -> dict:
     for key, value in data.items():
         if isinstance(value, dict):
             data[key] = dictify_all_complex_values(value)
-    return data
+        if isinstance(value, list):
+            data[key] = [dictify_all_complex_values(v) if isinstance(v, dict) else v for v in value]
+    return dictify_complex_values(data)
 
 def undictify_all_complex_values(data: dict) -> dict:
     for key, value in data.items():
